@@ -183,6 +183,24 @@ def run_case(case):
         sx = np.asarray(single_axis(rng2, "x").create_mask(rot, shape)) != 0
         if not np.array_equal(np.asarray(dm) != 0, sy | sx):
             viol.append((f"{ID}|dual_axis.create_mask|not-union-of-singles|{sc}", f"box {shape}"))
+        # 3b. unions built directly: one to four members, nested, with a no-wedge member
+        from acryo.tilt import UnionAxes
+
+        rng3 = (-rng2[1] / 2, rng2[0] / -3)
+        s3 = np.asarray(single_axis(rng3, "y").create_mask(rot, shape)) != 0
+        y1, x2, y3 = single_axis(rng, "y"), single_axis(rng2, "x"), single_axis(rng3, "y")
+        for uname, members, want in (("1", [x2], sx), ("3", [y1, x2, y3], sy | sx | s3), ("3'", [y3, y1, x2], sy | sx | s3), ("4", [y1, y3, x2, y3], sy | sx | s3),
+                                     ("nested", [UnionAxes([y1, x2]), y3], sy | sx | s3), ("with-no-wedge", [y1, no_wedge(), x2], np.ones(shape, dtype=bool))):
+            try:
+                um = np.asarray(UnionAxes(members).create_mask(rot, shape))
+            except Exception as e:  # noqa
+                viol.append((f"{ID}|UnionAxes[{uname}].create_mask|raised-{type(e).__name__}|{sc}", f"box {shape}: {e}"))
+                continue
+            if um.shape != shape or not np.array_equal(um != 0, want):
+                viol.append((f"{ID}|UnionAxes[{uname}].create_mask|not-union-of-members|{sc}", f"box {shape}, rot {case['rot']}: {int(((um != 0) != want).sum()) if um.shape == shape else um.shape} bins differ from the OR of the members' masks"))
+            for w_, m_ in ((y1, sy), (x2, sx), (y3, s3)):
+                if not np.array_equal(np.asarray(w_.create_mask(rot, shape)) != 0, m_):
+                    viol.append((f"{ID}|UnionAxes[{uname}].create_mask|member-mask-changed|{sc}", f"box {shape}: a member's own mask differs after the union was evaluated"))
         # 4. no wedge
         nm = np.asarray(no_wedge().create_mask(rot, shape))
         if nm.shape != shape or not (nm == 1).all():
